@@ -22,21 +22,7 @@ import (
 func w3DeathSig(prop string) func(stderr string, cs json.RawMessage) (string, string) {
 	return func(stderr string, cs json.RawMessage) (string, string) {
 		if k := strings.Index(stderr, "panic: SETUP-WEDGED"); k >= 0 {
-			// the goroutines of the product that are blocked, for the message
-			var blocked []string
-			for _, g := range strings.Split(stderr[k:], "\n\n") {
-				if strings.Contains(g, "github.com/marekgalovic/anndb/storage") && !strings.Contains(g, "anndbverif.(*Sim).park") {
-					lines := strings.Split(g, "\n")
-					if len(lines) > 7 {
-						lines = lines[:7]
-					}
-					blocked = append(blocked, strings.Join(lines, "\n"))
-				}
-				if len(blocked) >= 6 {
-					break
-				}
-			}
-			return "control-plane-wedged/server-setup-never-returned", strings.SplitN(stderr[k:], "\n", 2)[0] + "\n" + strings.Join(blocked, "\n\n")
+			return "control-plane-wedged/server-setup-never-returned", strings.SplitN(stderr[k:], "\n", 2)[0] + "\nblocked goroutines of the product:\n" + tail(stderr[:k], 3000)
 		}
 		i := strings.Index(stderr, "panic: ")
 		j := strings.Index(stderr, "fatal error: ")
